@@ -178,6 +178,9 @@ let parse_nop (op : string) : nop option =
     | "pre" -> NPre (true, r ()) | "pret" -> NPre (false, r ())
     | "sz" -> NSizes (true, r ()) | "szt" -> NSizes (false, r ())
     | "ar" -> NArity (r ())
+    | "itn" | "its" ->
+      let script = List.map (fun x -> nat_of_int (int_of_string x)) (List.filter (fun x -> x <> "") (String.split_on_char '.' parts.(2))) in
+      NIterScript (parts.(0) = "itn", r (), script)
     | _ -> raise Not_found)
   with _ -> None
 
